@@ -53,6 +53,16 @@ func monRawServer(prop string) Monitor {
 		if tr.Deadlock != "" {
 			add("C09", "goroutines_blocked_at_exit", tr.Steps, "%s", tr.Deadlock)
 		}
+		// --- no bloat: memory follows the data that arrived, never the size a peer merely announced
+		if tr.AllocBytes > allocBound {
+			var m uint64
+			for _, rp := range raw.Replies {
+				if x := maxAnnounced(rp.Frames); x > m {
+					m = x
+				}
+			}
+			add("C09", "announced_size_buffered", tr.Steps, "the run allocated %d MiB of heap although the script carries less than 1 MiB of data (largest announced message size: %d MiB)", tr.AllocBytes>>20, m>>20)
+		}
 		// --- tunnel-level vs stream-level
 		endedEarly := tun.DoneStep >= 0 && tun.DoneStep < hangup
 		switch raw.TunnelLevel {
